@@ -69,6 +69,11 @@ func draw(t *rapid.T) Case {
 		}
 		st = trial
 	}
+	if gen.OneIn(t, 4, "respell") {
+		// insignificant whitespace only: the legacy package compares test values by spelling
+		ws := gen.SpellCfg{WS: true}
+		return Case{Doc: gen.SpellWith(t, doc, ws, "sd"), Patch: gen.SpellWith(t, ref.OpsTree(ops), ws, "spp"), Neg: neg}
+	}
 	return Case{Doc: doc.Text(false), Patch: ref.OpsText(ops, false), Neg: neg}
 }
 
